@@ -359,6 +359,24 @@ fn check_history(c: &Case, history: usize) -> Option<(String, String)> {
                 format!("handler received {:?}, expected one call per failing reached appender {:?}", got_errors, want_errors),
             ));
         }
+        // different appenders that fail with the *same* text (two files on one full disk) are still different
+        // errors: each is handed over once
+        if round == 1 && want_errors.len() >= 2 {
+            log.lock().unwrap().clear();
+            crate::engine::capture::SAME_ERROR_TEXT.with(|c| c.set(true));
+            let r = catch_panic(|| logger.log(&Record::builder().target("t::sub").level(c.level).args(format_args!("m2")).build()));
+            crate::engine::capture::SAME_ERROR_TEXT.with(|c| c.set(false));
+            if let Err(p) = r {
+                return Some((format!("panic:{}", panic_site(&p)), p));
+            }
+            let got: usize = log.lock().unwrap().iter().map(|e| match e { Event::Error { tag } => tag.matches("disk full").count(), _ => 0 }).sum();
+            if got != want_errors.len() {
+                return Some((
+                    "error-handler:same-text".into(),
+                    format!("{} reached appenders fail with the same error text, the handler was handed {} errors", want_errors.len(), got),
+                ));
+            }
+        }
     }
     None
 }
